@@ -26,6 +26,29 @@ static nni_aio *vp_mk_aio(void)
 	vp_node_idle(&a->a_prov_node);
 	return (a);
 }
+/* a message as src/core/message.c keeps it: header block inside the struct, body chunk = one heap buffer with the data
+ * pointer somewhere inside; all contents nondeterministic (the contract's precondition constrains them) */
+static nni_msg *vp_mk_msg(void)
+{
+	VP_NEW(nni_msg, m);
+#ifdef IP_CAP
+	size_t cap = (size_t) IP_CAP;
+#else
+	size_t cap = nondet_size_t();
+#endif
+	size_t   off = nondet_size_t();
+	uint8_t *buf = (uint8_t *) __CPROVER_allocate(cap, 0);
+	m->m_body.ch_buf = buf;
+	m->m_body.ch_cap = cap;
+	m->m_body.ch_ptr = (off < cap) ? buf + off : buf;
+	return (m);
+}
+static nni_aio *vp_mk_writer(void)
+{
+	nni_aio *a = vp_mk_aio();
+	a->a_msg   = vp_mk_msg();
+	return (a);
+}
 static void vp_init_queue(inproc_queue *q)
 {
 	vp_list_init(&q->readers, offsetof(nni_aio, a_prov_node));
@@ -36,8 +59,8 @@ static void vp_fill_queue(inproc_queue *q, int nr, int nw)
 {
 	if (nr >= 1) { nni_aio *a = vp_mk_aio(); g_r1 = a; vp_list_add(&q->readers, &a->a_prov_node); }
 	if (nr >= 2) { nni_aio *a = vp_mk_aio(); g_r2 = a; vp_list_add(&q->readers, &a->a_prov_node); }
-	if (nw >= 1) { nni_aio *a = vp_mk_aio(); g_w1 = a; vp_list_add(&q->writers, &a->a_prov_node); }
-	if (nw >= 2) { nni_aio *a = vp_mk_aio(); g_w2 = a; vp_list_add(&q->writers, &a->a_prov_node); }
+	if (nw >= 1) { nni_aio *a = vp_mk_writer(); g_w1 = a; vp_list_add(&q->writers, &a->a_prov_node); }
+	if (nw >= 2) { nni_aio *a = vp_mk_writer(); g_w2 = a; vp_list_add(&q->writers, &a->a_prov_node); }
 }
 static inproc_queue *vp_mk_queue(int nr, int nw)
 {
@@ -116,7 +139,7 @@ void h_pipe_send(void)
 {
 	VP_HAVOC_GHOSTS();
 	inproc_queue *q = vp_mk_queue(IP_R, IP_W - 1);
-	nni_aio *a = vp_mk_aio();
+	nni_aio *a = vp_mk_writer();
 	if (IP_W == 1) { g_w1 = a; } else { g_w2 = a; }
 	inproc_pipe *p = vp_mk_pipe();
 	p->send_queue = q;
